@@ -1,5 +1,4 @@
-import XvcRepo.Cache
-import XvcRepo.Props.C01
+import XvcRepo.NoLoss
 /-!
   # C03 — No xvc command destroys workspace data it has not saved
 
@@ -15,87 +14,17 @@ def Safe (s : St) (p : Path) (e : Ent) (b : Bytes) : Prop :=
   (∃ n, s.readThrough p = some (b, n)) ∨
   (∃ r d o, s.recs e = some r ∧ r.cur = some d ∧ s.cache (addrOf p d) = some o ∧ o.b = b)
 
-/-- no CR/LF (or hash) collision at address `a` for content `b`: an object already there holds `b`.
-    (K1: violated by two contents that differ only in line endings.) -/
-def NoCollision (s : St) (a : Addr) (b : Bytes) : Prop := ∀ o, s.cache a = some o → o.b = b
-
-/-! ## frame: a per-file procedure touches no other workspace path -/
-
-theorem recheckFromCache_ws_other (s : St) (p q : Path) (a : Addr) (m : Method) (h : q ≠ p) :
-    (s.recheckFromCache p a m).1.ws q = s.ws q := by
-  unfold St.recheckFromCache
-  have h0 : (if (s.readThrough p).isSome then s.setWs p none else s).ws q = s.ws q := by
-    split
-    · simp [upd_other _ _ h]
-    · rfl
-  generalize (if (s.readThrough p).isSome then s.setWs p none else s) = s0 at h0 ⊢
-  simp only
-  repeat' split
-  all_goals simp [h0, upd_other _ _ h]
-
-theorem moveToCache_ws_other (s : St) (p q : Path) (a : Addr) (h : q ≠ p) : (s.moveToCache p a).1.ws q = s.ws q := by
-  unfold St.moveToCache
-  repeat' split
-  all_goals simp [upd_other _ _ h]
-
-theorem carryOne_ws_other (s : St) (p q : Path) (a : Addr) (m : Method) (h : q ≠ p) :
-    (s.carryOne p a m false).1.ws q = s.ws q := by
-  unfold St.carryOne
-  have h1 : (if (s.cache a).isSome then
-      if false = true then St.moveToCache { (s.detach a).setCache a none with dirRo := upd s.dirRo a.d false } p a
-      else (s, Out.ok)
-    else s.moveToCache p a).1.ws q = s.ws q := by
-    repeat' split
-    all_goals first | rfl | exact moveToCache_ws_other s p q a h | simp_all
-  generalize (if (s.cache a).isSome then
-      if false = true then St.moveToCache { (s.detach a).setCache a none with dirRo := upd s.dirRo a.d false } p a
-      else (s, Out.ok)
-    else s.moveToCache p a) = res at h1
-  obtain ⟨s1, o1⟩ := res
-  cases o1 <;> simp only at h1 ⊢
-  · rw [recheckFromCache_ws_other _ _ _ _ _ h]
-    split
-    · simp [upd_other _ _ h, h1]
-    · exact h1
-  · exact h1
-  · exact h1
-
 /-- **C03_other_paths_untouched (track)**: tracking `p` changes no other workspace entry. -/
 theorem C03_track_other_paths_untouched (c : Cfg) (o : TrackOpts) (hf : o.force = false) (s : St) (p q : Path)
-    (h : q ≠ p) : (s.trackOne c o p).1.ws q = s.ws q := by
-  unfold St.trackOne
-  split
-  · rfl
-  · unfold St.trackFile
-    simp only [hf]
-    repeat' split
-    all_goals first | rfl | (rw [carryOne_ws_other _ _ _ _ _ h]; rfl)
+    (h : q ≠ p) : (s.trackOne c o p).1.ws q = s.ws q := trackOne_ws_other c o hf s p q h
 
 /-- **C03_other_paths_untouched (carry-in)**. -/
 theorem C03_carryIn_other_paths_untouched (c : Cfg) (tob : Option Tob) (s : St) (p q : Path) (h : q ≠ p) :
-    (s.carryInOne c tob false p).1.ws q = s.ws q := by
-  unfold St.carryInOne
-  split
-  · rfl
-  · split
-    · rfl
-    · unfold St.carryInRec
-      simp only
-      repeat' split
-      all_goals first | rfl | (simp only [setRec_ws]; exact carryOne_ws_other _ _ _ _ _ h)
+    (s.carryInOne c tob false p).1.ws q = s.ws q := carryInOne_ws_other c tob s p q h
 
 /-- **C03_other_paths_untouched (recheck)**: also with `--force`. -/
 theorem C03_recheck_other_paths_untouched (c : Cfg) (m : Option Method) (f : Bool) (s : St) (p q : Path) (h : q ≠ p) :
-    (s.recheckOne c m f p).1.ws q = s.ws q := by
-  unfold St.recheckOne
-  split
-  · rfl
-  · split
-    · rfl
-    · unfold St.recheckRec
-      simp only
-      repeat' split
-      all_goals first | rfl | (rw [recheckFromCache_ws_other _ _ _ _ _ h]; rfl)
+    (s.recheckOne c m f p).1.ws q = s.ws q := recheckOne_ws_other c m f s p q h
 
 /-! ## the targeted path -/
 
@@ -223,6 +152,111 @@ theorem C03_move_refuses_uncached (c : Cfg) (o : CopyOpts) (s : St) (src dst : P
   repeat' split
   all_goals first | rfl | simp_all
 
+/-! ## whole commands, any number of targets -/
+
+/-- xvc commands that are not allowed to destroy anything: everything except `remove`, `untrack` and
+    the `--force` variants (`write`/`delete` are the user's own actions) -/
+def Cmd.careful : Cmd → Bool
+  | .track _ o => !o.force
+  | .carryIn _ _ f => !f
+  | .recheck _ _ f => !f
+  | .copy _ _ o => !o.force
+  | .move _ _ o => !o.force
+  | _ => false
+
+/-- at every state in which the command looks at a target, an object that already sits at the address
+    the command is going to use for the target holds the target's bytes.  It fails in exactly two ways:
+    two contents that differ only in line endings (K1), and an unsound metadata short-cut (equal size
+    and mtime although the bytes differ, the hypothesis `SoundRun` of C02). -/
+def SafeCmd (c : Cfg) (s : St) : Cmd → Prop
+  | .track ps o => forEachP (St.trackOne c o) (TrackSafeAt c o) s ps
+  | .carryIn ps t _ => forEachP (St.carryInOne c t false) (CarrySafeAt c t) s ps
+  | .recheck ps m _ => forEachP (St.recheckOne c m false) (fun s p => RecheckSafeAt c s p) s ps
+  | .move src _ _ => RecheckSafeAt c s src
+  | _ => True
+
+/-- what "nothing lost" means for a command: cache objects untouched, and whatever could be read at a
+    path can still be read there — for `move`, at the destination — or is held by the cache -/
+def NoLossCmd : Cmd → St → St → Prop
+  | .move src dst _ => NoLossMove src dst
+  | _ => NoLoss
+
+/-- **C03_command_no_loss**: a command without `--force` other than `remove`/`untrack`, with any number
+    of targets (tracked, modified, untracked, links, absent, duplicates — whatever the workspace holds),
+    deletes or changes no cache object and destroys no bytes that could be read in the workspace before
+    it: they can still be read at the same path, at the destination of the `move`, or are held by a
+    cache object. -/
+theorem C03_command_no_loss (c : Cfg) (s : St) (cmd : Cmd) (hc : cmd.careful = true) (hs : SafeCmd c s cmd) :
+    NoLossCmd cmd s (s.step c cmd).1 := by
+  cases cmd with
+  | write p b => simp [Cmd.careful] at hc
+  | delete p => simp [Cmd.careful] at hc
+  | track ps o => exact track_noLoss c o (by simpa [Cmd.careful] using hc) s ps hs
+  | carryIn ps t f =>
+    have : f = false := by simpa [Cmd.careful] using hc
+    subst this
+    exact carryIn_noLoss c t s ps hs
+  | recheck ps m f =>
+    have : f = false := by simpa [Cmd.careful] using hc
+    subst this
+    exact recheck_noLoss c m s ps hs
+  | remove ps a f => simp [Cmd.careful] at hc
+  | untrack ps => simp [Cmd.careful] at hc
+  | untrackRestore ps bl => simp [Cmd.careful] at hc
+  | copy a b o => exact copy_noLoss c o (by simpa [Cmd.careful] using hc) s a b
+  | move a b o => exact move_noLoss c o (by simpa [Cmd.careful] using hc) s a b hs
+
+/-- bytes that exist somewhere: readable at some workspace path or held by a cache object -/
+def Exists' (s : St) (b : Bytes) : Prop := (∃ q n, s.readThrough q = some (b, n)) ∨ InCache s b
+
+theorem NoLossCmd.exists {cmd : Cmd} {s s' : St} (h : NoLossCmd cmd s s') (b : Bytes) (hb : Exists' s b) : Exists' s' b := by
+  have hk : CacheKeep s s' := by
+    cases cmd <;> first | exact h.1
+  rcases hb with ⟨q, n, hr⟩ | ⟨a, o, ho, hob⟩
+  · cases cmd
+    case move src dst o =>
+      rcases h.2 q b n hr with ⟨n', h'⟩ | ⟨_, n', h'⟩ | h'
+      · exact Or.inl ⟨q, n', h'⟩
+      · exact Or.inl ⟨dst, n', h'⟩
+      · exact Or.inr h'
+    all_goals
+      rcases h.2 q b n hr with ⟨n', h'⟩ | h'
+      · exact Or.inl ⟨q, n', h'⟩
+      · exact Or.inr h'
+  · exact Or.inr ⟨a, o, hk a o ho, hob⟩
+
+/-- `SafeCmd` along a script -/
+def SafeScript (c : Cfg) : St → List Cmd → Prop
+  | _, [] => True
+  | s, cmd :: cs => SafeCmd c s cmd ∧ SafeScript c (s.step c cmd).1 cs
+
+/-- **C03_script_no_loss**: along any script of careful commands, of any length, no bytes that existed
+    at the start — in the workspace or in the cache — cease to exist. -/
+theorem C03_script_no_loss (c : Cfg) (s : St) (cs : List Cmd) (hc : ∀ cmd ∈ cs, cmd.careful = true)
+    (hs : SafeScript c s cs) (b : Bytes) (hb : Exists' s b) : Exists' (s.run c cs) b := by
+  induction cs generalizing s with
+  | nil => exact hb
+  | cons cmd cs ih =>
+    have h1 := C03_command_no_loss c s cmd (hc cmd (by simp)) hs.1
+    exact ih (s.step c cmd).1 (fun x hx => hc x (by simp [hx])) hs.2 (h1.exists b hb)
+
+/-- non-vacuity: two files with different contents and an untracked third one; tracking both (hard
+    links) is careful and safe, so `C03_command_no_loss` applies, and all three contents survive -/
+example :
+    let s := ((St.init.userWrite ⟨0, 1⟩ [104]).userWrite ⟨1, 1⟩ [105]).userWrite ⟨2, 1⟩ [106]
+    let cmd := Cmd.track [⟨0, 1⟩, ⟨1, 1⟩] { method := some .hardlink }
+    cmd.careful = true ∧ SafeCmd {} s cmd := by
+  refine ⟨rfl, ?_⟩
+  simp only [SafeCmd, forEachP]
+  refine ⟨?_, ?_, trivial⟩
+  · intro b n h o ho
+    cases ho
+  · intro b n h o ho
+    have hb := h.symm.trans (show _ = some ([105], 2) by decide)
+    cases hb
+    have hn := ho.symm.trans (show _ = none by decide)
+    cases hn
+
 /-- K1: with a CR/LF collision the second file's bytes are lost (neither at the path nor in the cache) -/
 theorem C03_crlf_loss_counterexample :
     let s0 := ((St.init.userWrite ⟨0, 1⟩ [108, 49, 10]).userWrite ⟨1, 1⟩ [108, 49, 13, 10])
@@ -252,5 +286,9 @@ open Repo in
 #print axioms C03_copy_move_refuse_existing
 open Repo in
 #print axioms C03_move_refuses_uncached
+open Repo in
+#print axioms C03_command_no_loss
+open Repo in
+#print axioms C03_script_no_loss
 open Repo in
 #print axioms C03_crlf_loss_counterexample
